@@ -257,7 +257,7 @@ OnRead(m, e) ==
 
 OnBrokerSend(m0, e) ==
   LET pk == e.pk
-      m == IF pk.t = "PUBLISH" /\ m0.frame THEN [m0 EXCEPT !.sentSeq = Append(@, <<pk.len, pk.sum>>)] ELSE m0
+      m == IF pk.t = "PUBLISH" /\ m0.frame /\ ~pk.dup THEN [m0 EXCEPT !.sentSeq = Append(@, <<pk.len, pk.sum>>)] ELSE m0
   IN
   IF pk.t = "SUBACK" THEN R([m EXCEPT !.sacks = Put(@, pk.id, pk.codes)], {})
   ELSE IF pk.t = "PUBLISH" /\ pk.qos = 0 THEN R([m EXCEPT !.sent0 = @ \cup {pk.tag}], {})
